@@ -373,7 +373,13 @@ pub fn generate(seed: u64, cfg: &GenCfg) -> Plan {
                     ttl = TtlSpec::None;
                 }
                 Op::Import {
-                    topic: if cfg.import_ttl_topics { topic(&mut rng) } else { "imp".to_string() },
+                    topic: if cfg.prop == "C07" && rng.chance(15) {
+                        "xs.context".to_string()
+                    } else if cfg.import_ttl_topics {
+                        topic(&mut rng)
+                    } else {
+                        "imp".to_string()
+                    },
                     ctx: gen_ctx(&mut rng, 10),
                     ttl,
                     meta: meta(&mut rng),
@@ -717,6 +723,15 @@ impl Exec {
 
     /// Bookkeeping for an import the store accepted.
     pub fn note_imported(&mut self, f: &Frame) {
+        // a registration frame is kept forever whatever TTL the imported frame asked for
+        let forced;
+        let f = if f.topic == "xs.context" && f.context_id == ZERO_CONTEXT && f.ttl.is_some() && f.ttl != Some(TTL::Forever) {
+            self.w.probe("import:registration-ttl-forced");
+            forced = Frame { ttl: Some(TTL::Forever), ..f.clone() };
+            &forced
+        } else {
+            f
+        };
         if f.context_id == ZERO_CONTEXT && f.topic == "xs.context" && !self.reg.contains(&f.id) {
             self.reg.push(f.id);
             self.w.probe("ctx:imported-registration");
@@ -742,6 +757,11 @@ impl Exec {
                 }
                 self.note_imported(&f);
                 self.drain_follower(what)?;
+                if f.topic == "xs.context" && f.context_id != ZERO_CONTEXT {
+                    // only a registration frame in the zero context makes its id a context
+                    self.w.probe("import:regtopic-in-nonzero-ctx");
+                    self.do_append(&format!("{} (probe: append into the context named by that frame's id)", what), "probe", f.id, None, None, None)?;
+                }
                 Ok(())
             }
             Err(e) => {
@@ -833,10 +853,22 @@ impl Exec {
                 let ts = (self.model.now as i64 + ts_off).max(1) as u64;
                 let mut id = match adjacent_to {
                     Some(k) if !self.reg.is_empty() => Scru128Id::from_u128(self.reg[k % self.reg.len()].to_u128() + 1),
-                    _ => fresh_id(ts, *salt),
+                    // context ids are key prefixes: put some of them on a byte boundary (…ff,
+                    // …ffff) so that the neighbouring id (adjacent_to) needs a carry
+                    _ => match salt % 4 {
+                        0 => Scru128Id::from_u128(fresh_id(ts, *salt).to_u128() | 0xff),
+                        1 => Scru128Id::from_u128(fresh_id(ts, *salt).to_u128() | 0xffff),
+                        _ => fresh_id(ts, *salt),
+                    },
                 };
                 while self.model.frames.contains_key(&id) || self.issued.contains(&id) {
                     id = Scru128Id::from_u128(id.to_u128() + 1);
+                }
+                if id.to_u128() & 0xff == 0xff {
+                    self.w.probe("ctx:id-ends-ff");
+                }
+                if id.to_u128() & 0xff == 0 && adjacent_to.is_some() {
+                    self.w.probe("ctx:adjacent-across-carry");
                 }
                 let f = Frame::builder("xs.context", ZERO_CONTEXT).id(id).ttl(TTL::Forever).build();
                 self.do_import(&what, f)?;
